@@ -1,6 +1,7 @@
 import RimeModel.Basic.Hex
 import RimeModel.Session.Api
 import RimeModel.Session.Compose
+import RimeModel.C16.Model
 /-! Line-protocol driver for M-session (same protocol as harness/session_harness.cc). -/
 open RimeModel RimeModel.Session
 
@@ -15,10 +16,17 @@ structure SchemaCfg where
   uniq : Bool
   express : Bool
 
+/-- what a session of the driver executes: an API op, or select_schema -/
+inductive DOp where
+  | api (op : Op)
+  | schema (id : String)
+
 structure DState where
   table : List (Bytes × Row) := []
   schemas : List (String × List (String × String)) := []   -- raw env key/values, resolved at first use
-  sessions : Array (Option (Ctx × String)) := #[]         -- ctx and schema id ("" = default)
+  /-- the service: RimeModel.C16.Svc over (context, schema id); ids are the harness's session indices -/
+  svc : RimeModel.C16.Svc (Ctx × String) := {}
+  created : Nat := 0
   cur : Nat := 0
 
 def dedupByText : List Cand → List Bytes → List Cand
@@ -111,6 +119,30 @@ def parseOp (ws : List String) : Option Op :=
 
 def deadLine (ret : Nat) : String := s!"ret={ret} input=- caret=0 composing=0 pending=- nocontext"
 
+/-- one session's own transition (the `step` parameter of the C16 service model) -/
+def sessStep (st : DState) (cs : Ctx × String) (d : DOp) : (Ctx × String) × String :=
+  match d with
+  | .schema id =>
+    match mkSchema st id with
+    | none => (cs, "bad-op")
+    | some sc =>
+      let c1 := freshCtx sc (some cs.1)
+      ((c1, id), showView (view sc.env c1) ⟨true, []⟩ c1.commitBuf)
+  | .api op =>
+    match mkSchema st cs.2 with
+    | none => (cs, "bad-op")
+    | some sc =>
+      let r := apiStep sc.env cs.1 op
+      ((r.1, cs.2), showView (view sc.env r.1) r.2 r.1.commitBuf)
+
+def showCur (st : DState) (ret : Bool) : String :=
+  match st.svc.lookup st.cur with
+  | some (c, id) =>
+    match mkSchema st id with
+    | some sc => showView (view sc.env c) ⟨ret, []⟩ c.commitBuf
+    | none => "bad-op"
+  | none => deadLine (if ret then 1 else 0)
+
 def step (st : DState) (line : String) : DState × Option String :=
   let ws := (line.trimAscii.toString.splitOn " ").filter (· ≠ "")
   match ws with
@@ -120,6 +152,9 @@ def step (st : DState) (line : String) : DState × Option String :=
     ({ st with schemas := st.schemas ++ [(id, kvs)] }, none)
   | ["table", k, t, c, p] =>
     ({ st with table := st.table ++ [(hexD k, { text := hexD t, comment := hexD c, preedit := hexD p })] }, none)
+  | ["ids"] =>
+    let live := st.svc.live
+    (st, some s!"ids live={live.length} distinct={if live.eraseDups.length == live.length then 1 else 0}")
   | ["new"] =>
     -- a session starts on the first schema of the list
     match st.schemas.head? with
@@ -128,63 +163,40 @@ def step (st : DState) (line : String) : DState × Option String :=
       match mkSchema st id with
       | none => (st, some "bad-op")
       | some sc =>
-        let c := freshCtx sc none
-        let st := { st with sessions := st.sessions.push (some (c, id)), cur := st.sessions.size }
-        (st, some (showView (view sc.env c) ⟨true, []⟩ c.commitBuf))
+        let fresh : Ctx × String := (freshCtx sc none, id)
+        let k := st.created
+        let r := RimeModel.C16.Svc.step fresh (sessStep st) st.svc (.create k)
+        let st := { st with svc := r.1, created := k + 1, cur := k }
+        (st, some (showCur st true))
   | ["use", k] =>
     match k.toNat? with
     | none => (st, some "bad-op")
-    | some k =>
-      let st := { st with cur := k }
-      match st.sessions[k]? with
-      | some (some (c, id)) =>
-        match mkSchema st id with
-        | some sc => (st, some (showView (view sc.env c) ⟨true, []⟩ c.commitBuf))
-        | none => (st, some "bad-op")
-      | _ => (st, some (deadLine 1))
+    | some k => let st := { st with cur := k }; (st, some (showCur st true))
   | ["destroy", k] =>
     match k.toNat? with
     | none => (st, some "bad-op")
     | some k =>
-      match st.sessions[k]? with
-      | some (some _) =>
-        let st := { st with sessions := st.sessions.set! k none }
-        match st.sessions[st.cur]? with
-        | some (some (c, id)) =>
-          match mkSchema st id with
-          | some sc => (st, some (showView (view sc.env c) ⟨true, []⟩ c.commitBuf))
-          | none => (st, some "bad-op")
-        | _ => (st, some (deadLine 1))
-      | _ =>
-        match st.sessions[st.cur]? with
-        | some (some (c, id)) =>
-          match mkSchema st id with
-          | some sc => (st, some (showView (view sc.env c) ⟨false, []⟩ c.commitBuf))
-          | none => (st, some "bad-op")
-        | _ => (st, some (deadLine 0))
-  | ["schema", id] =>
-    match st.sessions[st.cur]? with
-    | some (some (c, _)) =>
-      match mkSchema st id with
-      | none => (st, some "bad-op")
-      | some sc =>
-        let c1 := freshCtx sc (some c)
-        ({ st with sessions := st.sessions.set! st.cur (some (c1, id)) }, some (showView (view sc.env c1) ⟨true, []⟩ c1.commitBuf))
-    | _ => (st, some (deadLine 0))
+      let dummy : Ctx × String := ({}, "")
+      let r := RimeModel.C16.Svc.step dummy (sessStep st) st.svc (.destroy k)
+      let ok := match r.2 with | .destroyed b => b | _ => false
+      let st := { st with svc := r.1 }
+      (st, some (showCur st ok))
   | _ =>
-    match parseOp ws with
+    let dop : Option DOp := match ws with
+      | ["schema", id] => some (.schema id)
+      | _ => (parseOp ws).map .api
+    match dop with
     | none => (st, some "bad-op")
-    | some op =>
-      match st.sessions[st.cur]? with
-      | some (some (c, id)) =>
-        match mkSchema st id with
-        | none => (st, some "bad-op")
-        | some sc =>
-          let (c1, r) := apiStep sc.env c op
-          ({ st with sessions := st.sessions.set! st.cur (some (c1, id)) }, some (showView (view sc.env c1) r c1.commitBuf))
+    | some d =>
+      let dummy : Ctx × String := ({}, "")
+      let r := RimeModel.C16.Svc.step dummy (sessStep st) st.svc (.call st.cur d)
+      match r.2 with
+      | .obs line => ({ st with svc := r.1 }, some line)
       | _ =>
         -- dead / never-issued session id: every call is refused
-        let ret := match op with | .setCaret _ | .setOption _ _ | .clearComposition => 1 | _ => 0
+        let ret := match d with
+          | .api (.setCaret _) | .api (.setOption _ _) | .api .clearComposition => 1
+          | _ => 0
         (st, some (deadLine ret))
 
 partial def loop (h : IO.FS.Stream) (out : IO.FS.Stream) (st : DState) : IO Unit := do
